@@ -154,7 +154,7 @@ Record Inv2 (s : state) : Prop := {
       In (fst (cown ca), snd (cown ca), m) (accepted s)
 }.
 
-Lemma Inv2_init : Inv2 init.
+Lemma Inv2_init b : Inv2 (init_of b).
 Proof.
   constructor; cbn; intros; try tauto; try constructor;
     match goal with H : nth_error [] ?x = Some _ |- _ => destruct x; discriminate end.
@@ -354,6 +354,9 @@ Proof.
   - eapply (Hgen LWait (upd r VNil (chans s)) (works s)); eauto; try reflexivity.
     + intros sb E; discriminate.
     + intros q b Hq. upd_cases Hq; [discriminate|auto].
+  - eapply (Hgen (LDone RTimeout) (chans s)); eauto; try reflexivity.
+    intros sb E; discriminate.
+  - eapply (Hgen LTimedOut (chans s) (works s)); eauto; try reflexivity. intros sb E; discriminate.
   - eapply (Hgen (LDone RTimeout) (chans s)); eauto; try reflexivity.
     intros sb E; discriminate.
 Qed.
